@@ -20,23 +20,30 @@ import Kanzi.Drv.ROLZ
 namespace Kanzi.Drv
 open Kanzi.ROLZ
 
-def rolzdecShow (dstLen : Nat) (r : Out (Nat × Array Nat)) : String :=
+/-- `lenOnly` (variant letter `R`, ROLZ on forged input): the decoded bytes are not compared — the ANS
+    functions of the rolz slice read zeros where the real decoder object holds bytes of its previous Read
+    (`C03_rolz_ans_stale_witness`); class, length and table sizes do not depend on them. -/
+def rolzdecShow (dstLen : Nat) (r : Out (Nat × Array Nat)) (lenOnly : Bool := false) : String :=
   match r with
-  | .ok (w, dst) => if w > dstLen then "overrun" else "ok " ++ rltOut (dst.extract 0 w).toList
+  | .ok (w, dst) =>
+    if w > dstLen then "overrun"
+    else if lenOnly then s!"ok {w} ~"
+    else "ok " ++ rltOut (dst.extract 0 w).toList
   | .err e => "err:" ++ e
   | .fault _ => "panic:index"
 
-def rolzdecCalls (x : Bool) (lpc0 : Nat) (hasBsv : Bool) (bsv : Nat) : List (Nat × List Nat) → Nat → List String
+def rolzdecCalls (x : Bool) (lpc0 : Nat) (hasBsv : Bool) (bsv : Nat) (lenOnly : Bool := false) :
+    List (Nat × List Nat) → Nat → List String
   | [], _ => []
   | (d, b) :: rest, mLen =>
     let hdr := beN b.toArray 0 4
     if x then
       let r := rolzxInverse CHUNK_SIZE lpc0 (if hasBsv then bsv else 6) b (Array.replicate d 0xAA)
-      s!"{rolzdecShow d r} m={HASH_SIZE * 2 ^ lpc0} c={HASH_SIZE}" :: rolzdecCalls x lpc0 hasBsv bsv rest mLen
+      s!"{rolzdecShow d r} m={HASH_SIZE * 2 ^ lpc0} c={HASH_SIZE}" :: rolzdecCalls x lpc0 hasBsv bsv lenOnly rest mLen
     else
       let r := rolzInverse CHUNK_SIZE lpc0 hasBsv bsv b (Array.replicate d 0xAA)
       let m' := rolz1MatchesAfter lpc0 b.length d hdr mLen
-      s!"{rolzdecShow d r} m={m'} c={HASH_SIZE}" :: rolzdecCalls x lpc0 hasBsv bsv rest m'
+      s!"{rolzdecShow d r lenOnly} m={m'} c={HASH_SIZE}" :: rolzdecCalls x lpc0 hasBsv bsv lenOnly rest m'
 
 def rolzdec (line : String) : String :=
   match (line.splitOn " ").filter (· ≠ "") with
@@ -46,8 +53,8 @@ def rolzdec (line : String) : String :=
     let bsv? : Option Nat := if bv = "-" then some 6 else bv.toNat?
     match lpc0?, bsv?, (ds.splitOn "/").mapM String.toNat?, (hs.splitOn "/").mapM rolzData with
     | some lpc0, some bsv, some dl, some hl =>
-      if dl.length ≠ hl.length ∨ (v ≠ "x" ∧ v ≠ "r") then "bad-op"
-      else " / ".intercalate (rolzdecCalls x lpc0 (bv ≠ "-") bsv (dl.zip hl) 0)
+      if dl.length ≠ hl.length ∨ (v ≠ "x" ∧ v ≠ "r" ∧ v ≠ "R") then "bad-op"
+      else " / ".intercalate (rolzdecCalls x lpc0 (bv ≠ "-") bsv (v = "R") (dl.zip hl) 0)
     | _, _, _, _ => "bad-op"
   | _ => "bad-op"
 
